@@ -25,7 +25,7 @@ let ctor_args r ndims =
 let unres = function Ok v -> v | Exit -> stop "EXIT" | OOB -> stop "OOB" | Fuel -> stop "FUEL"
 
 (* ---- one table: the object the model's constructor builds from the raw table and the unit arguments, and its step function *)
-type tab1 = { t_obj : float object1; t_stp : float state -> float op -> float state * float out; t_kind : float state -> float -> int }
+type tab1 = { t_n : z; t_xv : z -> float; t_obj : float object1; t_stp : float state -> float op -> float state * float out; t_kind : float state -> float -> int }
 
 let read_tab1 r ~trace =
   let (ck, dims) = ctor_args r 2 in
@@ -43,7 +43,7 @@ let read_tab1 r ~trace =
     if trace then (fun st o -> step fops n xv (fun _ _ -> 0.0) (fun _ _ _ -> 0.0) (fun _ _ _ _ _ -> 0.0)
                       (fun _ _ _ _ _ _ _ _ -> 0.0) (fun _ _ -> 0.0) st o)   (* values are not printed in trace mode *)
     else (let obj = build fops (Array.to_list xs) ys in fun st o -> step_steffen fops obj n xv st o) in
-  { t_obj = o; t_stp = stp; t_kind = (fun st x -> iz (locate_kind fops n xv st x)) }
+  { t_n = n; t_xv = xv; t_obj = o; t_stp = stp; t_kind = (fun st x -> iz (locate_kind fops n xv st x)) }
 
 let bad1 = function
   | OExit -> stop "EXIT" | OOOB -> stop "OOB" | OFuel -> stop "FUEL" | _ -> stop "MODELERR unexpected_output"
@@ -95,6 +95,24 @@ let query1 r ~trace (tab : unit -> tab1) (getst : unit -> float state) (apply : 
   | "Q" -> let o = (tab ()).t_obj in if not trace then (put_f (fst o.o_dom); put_f (snd o.o_dom)); true     (* the public member domain *)
   | "P" -> let f = num r in ignore (apply (OpSetPrefactor f)); if not trace then put_f (getst ()).prefactor; true
   | "U" -> let f = num r in ignore (apply (OpMultiply f)); if not trace then put_f (getst ()).prefactor; true
+  | "F" ->                         (* Save_Function(file, points): the member calls save_ops of C09_Model.v, in order, on the object itself *)
+      let npts = integer r in
+      let t = tab () in
+      let xs_ = List.map (function OpInterpolate x -> x | _ -> stop "MODELERR save_ops") (save_ops fops t.t_n t.t_xv (zi npts)) in
+      trace_locates xs_;
+      if not trace then put_i (List.length xs_);
+      List.iter (fun x ->
+        let pf = (getst ()).prefactor in
+        let out = apply (OpInterpolate x) in
+        let (_, outf) = stp (fresh pf) (OpInterpolate x) in
+        let (_, outb) = stp (fresh 1.0) (OpInterpolate x) in
+        match out, outf, outb with
+        | OValue (_, _), OValue (_, vf), OValue (_, vb) ->
+            (* the two fields of the row (text, not modelled), the argument, a fresh object with the same prefactor, a new object *)
+            if not trace then (put_w "_"; put_w "_"; put_f x; put_f vf; put_f vb)
+        | OValue (_, _), OValue (_, _), e -> bad1 e
+        | OValue (_, _), e, _ -> bad1 e
+        | e, _, _ -> bad1 e) xs_; true
   | _ -> false
 
 let one_d r ~trace =
@@ -145,7 +163,7 @@ let session_1d r =
     (fun tab getst apply w -> query1 r ~trace:false (fun () -> tabs.(tab ())) getst apply w)
 
 (* ---- Interpolation_2D *)
-type tab2 = { t2_obj : float object2; t2_stp : float state2 -> float op2 -> float state2 * float out2 }
+type tab2 = { t2_nx : z; t2_xv : z -> float; t2_ny : z; t2_yv : z -> float; t2_obj : float object2; t2_stp : float state2 -> float op2 -> float state2 * float out2 }
 
 let read_tab2 r =
   let (ck, dims) = ctor_args r 3 in
@@ -162,7 +180,7 @@ let read_tab2 r =
   let nx = Array.length xs and ny = Array.length ys in
   let f = Array.of_list (List.map Array.of_list o.o2_f) in
   let fv zi_ zj = let i = iz zi_ and j = iz zj in if i >= 0 && i < nx && j >= 0 && j < ny then f.(i).(j) else Float.nan in
-  { t2_obj = o; t2_stp = (fun st o -> step2 fops (zi nx) (mk_xv xs) (zi ny) (mk_xv ys) fv st o) }
+  { t2_nx = zi nx; t2_xv = mk_xv xs; t2_ny = zi ny; t2_yv = mk_xv ys; t2_obj = o; t2_stp = (fun st o -> step2 fops (zi nx) (mk_xv xs) (zi ny) (mk_xv ys) fv st o) }
 
 let bad2 = function
   | O2Exit -> stop "EXIT" | O2OOB -> stop "OOB" | O2Fuel -> stop "FUEL" | _ -> stop "MODELERR unexpected_output"
@@ -191,6 +209,24 @@ let query2 r (tab : unit -> tab2) (getst : unit -> float state2) (apply : float 
   | "Q" -> let ((a, b), (c, d)) = (tab ()).t2_obj.o2_dom in put_f a; put_f b; put_f c; put_f d; true
   | "P" -> let f = num r in ignore (apply (Op2SetPrefactor f)); put_f (getst ()).pf2; true
   | "U" -> let f = num r in ignore (apply (Op2Multiply f)); put_f (getst ()).pf2; true
+  | "F" | "f" ->                   (* Save_Function(file, x_points, y_points) / (file, x_points) with the default y_points = 0: save_ops2 *)
+      let nx = integer r in
+      let ny = if w = "F" then integer r else 0 in
+      let t = tab () in
+      let ops = save_ops2 fops t.t2_nx t.t2_xv t.t2_ny t.t2_yv (zi nx) (zi ny) in
+      put_i (List.length ops);
+      List.iter (function
+        | Op2Interpolate (x, y) ->
+            let pf = (getst ()).pf2 in
+            let out = apply (Op2Interpolate (x, y)) in
+            let (_, outf) = stp { sx = init fops; sy = init fops; pf2 = pf } (Op2Interpolate (x, y)) in
+            let (_, outb) = stp (init2 fops) (Op2Interpolate (x, y)) in
+            (match out, outf, outb with
+             | O2Value (_, _, _), O2Value (_, _, vf), O2Value (_, _, vb) -> put_w "_"; put_w "_"; put_w "_"; put_f x; put_f y; put_f vf; put_f vb
+             | O2Value (_, _, _), O2Value (_, _, _), e -> bad2 e
+             | O2Value (_, _, _), e, _ -> bad2 e
+             | e, _, _ -> bad2 e)
+        | _ -> stop "MODELERR save_ops2") ops; true
   | _ -> false
 
 let two_d r =
